@@ -31,7 +31,11 @@ def gen_case(rng, i, tier):
     n = rng.randint(2, 8)
     ncol = rng.randint(1, 3)
     method = rng.choice(["linear", "linear", "log"])
-    lat = [x / 4 for x in range(1, 60)] if method == "log" else [x / 4 for x in range(-30, 31)]
+    decimal = rng.random() < 0.25  # tenths are not representable in binary (nor the same in float32 and float64)
+    if decimal:
+        lat = [x / 10 for x in range(1, 150)] if method == "log" else [x / 10 for x in range(-75, 76)]
+    else:
+        lat = [x / 4 for x in range(1, 60)] if method == "log" else [x / 4 for x in range(-30, 31)]
     bypass = rng.random() < 0.25
     cols, dirs = [], []
     for _ in range(ncol):
@@ -58,7 +62,7 @@ def gen_case(rng, i, tier):
                 if method == "log" and v <= 0:
                     v = lo / 2
             else:
-                v = rng.choice([x for x in lat if lo <= x <= hi] or [lo]) + rng.choice([0, 0.125, 0.0625]); places.add("inside")
+                v = rng.choice([x for x in lat if lo <= x <= hi] or [lo]) + rng.choice([0, 0.125, 0.0625] if not decimal else [0, 0.03, 0.007]); places.add("inside")
             ls.append(v)
         levels.append(ls)
     extra = {e: rng.randint(1, 2) for e in rng.sample(["time", "ens"], rng.choice([0, 0, 1, 2]))}
@@ -67,7 +71,8 @@ def gen_case(rng, i, tier):
             "path": rng.choice(["kernel", "grid", "grid"]), "dseed": rng.getrandbits(31), "order_seed": rng.getrandbits(8),
             "dask": rng.choice([None, None, "synchronous", "threads"]),
             "suffix": rng.choice([None, None, "_on_rho", ""]), "name": rng.choice(["foo", "temp", None]),
-            "tdname": rng.choice(["dens", "sigma0", None]), "extra_pos": rng.sample(["left", "outer"], rng.choice([0, 1]))}
+            "tdname": rng.choice(["dens", "sigma0", None]), "extra_pos": rng.sample(["left", "outer"], rng.choice([0, 1])),
+            "dtype": rng.choice(["float64"] * 7 + ["int64", "float32", "float32"]), "decimal": decimal}
 
 
 def model_column(xs, ys, levels, mask, log):
@@ -96,7 +101,12 @@ def run_case(ctx, desc):
     ex = list(desc["extra"])
     lead = [desc["extra"][e] for e in ex]
     data = gen.quarter_data(desc["dseed"], tuple(lead) + (ncol, n))
-    feats = (desc["path"], method, "".join(sorted(set(desc["dirs"]))), mask, bypass, desc["tkind"], desc["places"], desc["dask"] if desc["path"] == "grid" else None)
+    dt = desc.get("dtype", "float64")
+    if dt == "int64":
+        data = np.round(data).astype("int64")  # integer-typed data (counts); the levels stay fractional
+    elif dt == "float32":
+        data = data.astype("float32")  # quarter-integers are exact in float32; target_data and levels stay float64
+    feats = (desc["path"], dt, desc.get("decimal", False), method, "".join(sorted(set(desc["dirs"]))), mask, bypass, desc["tkind"], desc["places"], desc["dask"] if desc["path"] == "grid" else None)
     nontrivial = any(p in ("inside", "outside") for p in desc["places"])
     ctx.judged(feats, nontrivial)
     if ctx.evaluations % 60 == 1:
@@ -111,8 +121,8 @@ def run_case(ctx, desc):
         except Exception as e:
             ctx.violation("kernel-returns", f"interp_1d_linear raised {type(e).__name__}: {str(e)[:200]}")
             return
-        flat = out.reshape((-1, ncol, len(lv)))
-        dflat = data.reshape((-1, ncol, n))
+        flat = np.asarray(out, float).reshape((-1, ncol, len(lv)))
+        dflat = data.astype(float).reshape((-1, ncol, n))
         for k in range(flat.shape[0]):
             for c in range(ncol):
                 exp, _ = model_column(cols[c], dflat[k, c], lv, mask, log)
@@ -121,9 +131,9 @@ def run_case(ctx, desc):
                                                                    f"levels {lv.tolist()} mask_edges={mask} bypass={bypass}: got {flat[k, c].tolist()} expected {exp.tolist()}")
                     return
         # column independence: the N-D call equals per-column 1-D calls
-        ctx.judged(("1d-vs-nd",) + feats[1:5], True)
+        ctx.judged(("1d-vs-nd",) + feats[1:7], True)
         for c in range(ncol):
-            o1 = T.interp_1d_linear(dflat[0, c], theta[c], lv, mask_edges=mask, bypass_checks=bypass, logarithmic=log)
+            o1 = T.interp_1d_linear(data.reshape((-1, ncol, n))[0, c], theta[c], lv, mask_edges=mask, bypass_checks=bypass, logarithmic=log)
             if not np.array_equal(np.asarray(o1), flat[0, c], equal_nan=True):
                 ctx.violation("columns-independent", f"1-D call on column {c} differs from the same column inside the N-D call")
                 return
@@ -187,8 +197,8 @@ def run_grid(ctx, desc, data, theta, feats):
         ctx.violation("result-name", f"result name {r.name!r}, expected {want_name!r} (input {desc['name']!r}, suffix {desc['suffix']!r})",
                       mechanism=None)
         return
-    got = r.transpose(*ex, "col", newdim).values.reshape((-1, ncol, r.sizes[newdim]))
-    dflat = data.reshape((-1, ncol, n))
+    got = np.asarray(r.transpose(*ex, "col", newdim).values, float).reshape((-1, ncol, r.sizes[newdim]))
+    dflat = data.astype(float).reshape((-1, ncol, n))
     for k in range(got.shape[0]):
         for c in range(ncol):
             lv = desc["levels"][c if tkind == "nd-target" else 0]
